@@ -215,11 +215,18 @@ func (p *Primary) StreamWAL(
 
 	log.Info("Replica registered with address: %s", listenerAddress)
 
+	// StartSequence is the first sequence the replica wants: the last one it
+	// has is the one before
+	lastAck := req.StartSequence
+	if lastAck > 0 {
+		lastAck--
+	}
+
 	session := &ReplicaSession{
 		ID:              sessionID,
 		StartSequence:   req.StartSequence,
 		Stream:          stream,
-		LastAckSequence: req.StartSequence,
+		LastAckSequence: lastAck,
 		SupportedCodecs: []proto.CompressionCodec{proto.CompressionCodec_NONE},
 		Connected:       true,
 		Active:          true,
